@@ -58,6 +58,9 @@ Definition a_add (am : amsg) (t : N) (v : list byte) : amsg :=
   mkA (am_meth am) (am_class am) L' (am_tid am) (am_attrs am ++ [(t, alen, v)]) false
       (lpoke body 2 (be16 L')).
 
+(* Raw cut at the declared length (what lies behind it is not part of the message) *)
+Definition a_cut (am : amsg) : list byte := take (20 + am_length am) (am_raw am).
+
 Definition a_has_fp (am : amsg) : bool := existsb (fun a => fst (fst a) =? AttrFingerprint) (am_attrs am).
 
 Definition a_apply_setter (am : amsg) (s : setter) : outcome amsg :=
@@ -88,10 +91,10 @@ Definition a_apply_setter (am : amsg) (s : setter) : outcome amsg :=
   | SUnknown ts => Ok (a_add am AttrUnknownAttributes (unknown_value CUR_UNKNOWN_ESZ ts))
   | SMI key =>
       if a_has_fp am then Err E_FP_BEFORE_MI else
-      let raw1 := lpoke (am_raw am) 2 (be16 (u32 (am_length am + 24))) in
+      let raw1 := lpoke (a_cut am) 2 (be16 (u32 (am_length am + 24))) in
       Ok (a_add (a_with_raw am raw1) AttrMessageIntegrity (hmac_sha1 key raw1))
   | SFP =>
-      let raw1 := lpoke (am_raw am) 2 (be16 (u32 (am_length am + 8))) in
+      let raw1 := lpoke (a_cut am) 2 (be16 (u32 (am_length am + 8))) in
       Ok (a_add (a_with_raw am raw1) AttrFingerprint (be32 (fingerprint_value raw1)))
   end.
 
